@@ -454,9 +454,10 @@ void generate_status(Rng &r, const GenOpts &g, Plan &p) {
             if (r.chance(1, 40)) p.ops.push_back(Op("idle"));
         }
     }
-    if (thorough && p.index >= 0 && p.prop == "C12" && (p.index % 64) == 0) {
-        // thorough tier: walk a slice of all 65536 codes inside the history, in seeded order
-        long base = (p.index / 64) * 1024;
+    if (thorough && p.prop == "C12" && ((p.seed >> 20) % 64) == 0) {
+        // thorough tier: walk a slice of all 65536 codes inside the history, in seeded order (chosen by seed, so that the
+        // long runs are spread over all workers)
+        long base = (long) ((p.seed >> 28) % 64) * 1024;
         for (long j = 0; j < 1024; j++) {
             long code = (long) (int16_t) ((base + j * 7919 + (long) (p.seed & 0xffff)) & 0xFFFF);
             p.ops.push_back(Op("fw", {K_PUSH, 0, code, 0}));
